@@ -22,8 +22,14 @@ import (
 func enumPool(variant int) []*sbom.NodeList {
 	mk := func(ids []string, roots []string, edges [][]string) *sbom.NodeList {
 		nl := &sbom.NodeList{}
-		for _, id := range ids {
-			nl.AddNode(&sbom.Node{Id: id, Name: "n-" + id})
+		for k, id := range ids {
+			// package urls of every spelling the purl-type extraction has a rule for (and "pkg://host/...": an empty type)
+			purl := []string{"pkg://github.com/example/" + id + "@v1", "pkg:npm/" + id + "@1", "pkg:/npm/" + id + "@1", ""}[k%4]
+			nd := &sbom.Node{Id: id, Name: "n-" + id}
+			if purl != "" {
+				nd.Identifiers = map[int32]string{int32(sbom.SoftwareIdentifierType_PURL): purl}
+			}
+			nl.AddNode(nd)
 		}
 		for _, r := range roots { // grown by append, as AddRootNode and the decoders grow it
 			nl.RootElements = append(nl.RootElements, r)
@@ -77,6 +83,8 @@ func enumMenu() []enumOp {
 			enumOp{r, -1, r, graphops.Remove, 2},
 			enumOp{r, -1, r, graphops.Remove, 1},
 			enumOp{r, -1, o1, graphops.Descendants, 2},
+			enumOp{r, -1, o2, graphops.ByPurlType, 0},
+			enumOp{r, -1, o1, graphops.ByPurlType, 1},
 			enumOp{r, -1, o2, graphops.Graph, 1})
 	}
 	return m
@@ -110,6 +118,8 @@ func (e enumOp) build(pool []*sbom.NodeList, step int) *graphops.Op {
 		op.ID, op.Depth = id, 2
 	case graphops.Graph:
 		op.ID = id
+	case graphops.ByPurlType:
+		op.Purl = []string{"", "npm"}[e.sel%2]
 	}
 	return op
 }
